@@ -633,8 +633,9 @@ Qed.
 Lemma concat_chunk_go : forall s size n cur, concat (chunk_go size n cur s) = rev cur ++ s.
 Proof.
   induction s as [|c t IH]; intros size n cur; cbn [chunk_go].
-  - destruct cur; cbn [concat]; now rewrite ?app_nil_r.
-  - destruct (N.eqb (n + 1) size); [cbn [concat]|]; rewrite IH; cbn [rev app]; now rewrite <- app_assoc.
+  - destruct cur; cbn [concat]; rewrite ?rev_append_rev; now rewrite ?app_nil_r.
+  - destruct (N.eqb (n + 1) size); [cbn [concat]; rewrite rev_append_rev, app_nil_r|]; rewrite IH; cbn [rev app];
+      now rewrite <- app_assoc.
 Qed.
 Lemma concat_chunks_of size s : concat (chunks_of size s) = s.
 Proof. unfold chunks_of. now rewrite concat_chunk_go. Qed.
